@@ -281,6 +281,10 @@ func genC10(r *sim.Rng, tier string, idx int) *GCase {
 	if r.Chance(1, 3) {
 		c.Files = append(c.Files, genPlainFile(r, "unrelated.keep", 100))
 	}
+	if k := c.Files[len(c.Files)-1].Kind; len(c.Files) == 1 && k != "symlink" && k != "dir" && r.Chance(1, 12) {
+		// the operand has a second name (hard link)
+		c.Files = append(c.Files, FileSpec{Name: "other name of it", Kind: "hardlink", Target: c.Files[0].Name})
+	}
 	if len(v.Files) == 1 && !v.Stdout && r.Chance(1, 5) {
 		// a second operand in the same invocation, before or after the first:
 		// whatever the run leaves of the one must not depend on what happened
